@@ -1045,6 +1045,10 @@ func (t *tr) call(c *ast.CallExpr, stmt bool) ([]string, []T) {
 		if fi.mayPanic && !t.mayPanic {
 			t.fail(c, "call of panicking %s from a non-panicking function", fi.spec.Lean)
 		}
+		if len(fi.spec.RetExtra) > 0 && !fi.spec.Inner {
+			// the extra results (threaded abstract state) are not part of the Go results this call site projects
+			t.fail(c, "callee %s returns extra values: it has to be called through a configured Ext", fi.spec.Lean)
+		}
 		if fi.spec.Inner {
 			// the callee returns a closure (translated as a function of the closure's own parameters): the call is the
 			// partial application to the outer arguments
